@@ -331,7 +331,7 @@ func flattenConcat(v ssa.Value) []ssa.Value {
 
 func c20(r *core.Run) {
 	p := r.P
-	r.Explanation = "The three leaf packages of the generator (tools/god/util/format, util/stringx, config) are parsed and type-checked in-process and decided on their SSA: FileNamingFormat, ToCamel and ToSnake reach no clock, randomness, environment, OS, goroutine, map iteration or mutable package-level variable; every index obtained from strings.Index*(Y, ...) subscripts only Y (or X when Y = g(X) with g byte-length preserving by construction) and is offset only by the width of the searched flag; the template is sliced only after both flags were found in order, otherwise a non-nil error is returned; the template is decomposed into prefix / GO style / separator / DESIGNER style / suffix from the right slices; getStyle maps exactly lower/upper/title spellings (of the lower-cased flag) to three distinct styles and errors otherwise, transferTo applies the same case function per style; doFormat renders the first word in the GO style, the others in the DESIGNER style, joined by the separator between prefix and suffix; the DESIGNER position comes from a search restricted to the part of the template behind the GO match (a position found in a window Y[L:] counts as a position in Y only with L added back); the splitter of util/format opens a word at '_' and before every rune for which unicode.IsUpper holds, evaluated on ASCII and non-ASCII sample runes, and ToSnake's splitter agrees with it on those samples."
+	r.Explanation = "The three leaf packages of the generator (tools/god/util/format, util/stringx, config) are parsed and type-checked in-process and decided on their SSA: FileNamingFormat, ToCamel and ToSnake reach no clock, randomness, environment, OS, goroutine, map iteration or mutable package-level variable; every index obtained from strings.Index*(Y, ...) subscripts only Y (or X when Y = g(X) with g byte-length preserving by construction) and is offset only by the width of the searched flag; the template is sliced only after both flags were found in order, otherwise a non-nil error is returned; the template is decomposed into prefix / GO style / separator / DESIGNER style / suffix from the right slices; getStyle maps exactly lower/upper/title spellings (of the lower-cased flag) to three distinct styles and errors otherwise, and on every path on which it reported an error FileNamingFormat returns an error that is non-nil on that path (nil tests followed path by path), transferTo applies the same case function per style; doFormat renders the first word in the GO style, the others in the DESIGNER style, joined by the separator between prefix and suffix; the DESIGNER position comes from a search restricted to the part of the template behind the GO match (a position found in a window Y[L:] counts as a position in Y only with L added back); the splitter of util/format opens a word at '_' and before every rune for which unicode.IsUpper holds, evaluated on ASCII and non-ASCII sample runes, and ToSnake's splitter agrees with it on those samples."
 	r.NotDecided = "the rendering rule over all strings (behaviour of strings.Title/ToUpper on arbitrary Unicode – strings.Title also capitalises after punctuation inside a word, observed in h7 f3 –, the word splitter on runes outside the samples, e.g. title-case letters), which of several DESIGNERs behind GO is taken, camel<->snake round trip, panic-freedom of the conversions in general (e.g. UnTitle's byte-wise first letter)."
 	r.Trusted = append(r.Trusted, "in-process loader core/ext_c20.go: go/parser + go/types + ssautil.BuildPackage; imports served from export data via one read-only packages.Load in the main module")
 
@@ -806,7 +806,15 @@ func c20(r *core.Run) {
 			role := classify(v)
 			if role == "" {
 				// a style: result #0 of the classifier applied to a spelling slice
-				if q, idx := core.ResultOf(core.Forward(v)); q != nil && idx == 0 && staticCallee(q) != nil && inMod[staticCallee(q)] && len(q.Call.Args) == 1 {
+				sv := core.Forward(v)
+				if _, isPhi := sv.(*ssa.Phi); isPhi {
+					// `if err == nil { designerStyle, err = getStyle(…) }`: the style merges with the zero value of
+					// the skipped classification – what it is whenever the struct is handed on, path by path (c20_r10.go)
+					if u := c20UniqueOnPaths(all, fnFormat, alUse, sv); u != nil {
+						sv = u
+					}
+				}
+				if q, idx := core.ResultOf(sv); q != nil && idx == 0 && staticCallee(q) != nil && inMod[staticCallee(q)] && len(q.Call.Args) == 1 {
 					switch classify(q.Call.Args[0]) {
 					case "go-spelling":
 						role, fnGetStyle = "go-style", staticCallee(q)
@@ -814,7 +822,9 @@ func c20(r *core.Run) {
 						role, fnGetStyle = "designer-style", staticCallee(q)
 					}
 					if role != "" {
-						if w := requiresX(fnFormat, core.Is(alUse), core.ErrNil(1, core.Is(q))); w != nil {
+						// decided on the guard structure, or – one test on a variable that merges the errors of both
+						// classifications – by following the nil tests path by path (c20_r10.go); an alarm needs both to fail
+						if w := requiresX(fnFormat, core.Is(alUse), core.ErrNil(1, core.Is(q))); w != nil && !c20NilOnPaths(all, fnFormat, alUse, q, 1) {
 							o.Fail(posOf(q), "the style is used although the classifier reported an error")
 						}
 					}
@@ -930,6 +940,7 @@ func c20(r *core.Run) {
 			seen[c] = kind
 		}
 	})
+	c20R10(r, ext, fnFormat, fnGetStyle) // D3/K2/classifier-error-rejects (c20_r10.go)
 	var fnTransfer *ssa.Function
 	r.Check("D3/K8/render-first-word-go-others-designer", "the renderer converts word #0 with the GO style and every other word with the DESIGNER style, joins them with the separator and returns prefix + joined + suffix", func(o *core.O) {
 		if !o.Need(fnDoFormat != nil && styleStruct != nil && len(roleField) == 5, "the renderer and the five style fields (template decomposition)") {
